@@ -19,6 +19,9 @@ HOSTS = [("127.0.0.1", 1), ("0.0.0.0", 0), ("localhost", 1), ("::1", 1), ("[::1]
          ("[::]", 0), ("10.127.0.1", 0)]
 
 
+HHOSTS = [(None, None), (None, None), ("127.0.0.1", 1), ("0.0.0.0", 0), ("localhost", 1), ("10.0.0.7", 0)]
+
+
 def canon(line):
     return line.split(" ")[0]
 
@@ -40,11 +43,19 @@ def rows(thorough, rng):
             sel = grid if (thorough or (env in ("pilot", "production") and host in ("127.0.0.1", "0.0.0.0"))) \
                 else rng.sample(grid, 40)
             for (fs, sn, rc, st, au, rl, ob, fr, tl) in sel:
-                via = rng.choice(vias) if not thorough else None
+                # rows that are safe in every durability / auth dimension sit on the exposure boundary (TLS x bind hosts): all
+                # delivery routes and all observability hosts for them, one random choice for the rest
+                critical = (fs != "none" and sn != "0" and rc == "strict" and st == "learned" and au == 1 and rl == 1
+                            and ob != "disabled" and fr == 0)
+                via = rng.choice(vias) if not (thorough or critical) else None
+                # "whatever the remaining settings are": the observability listener's own bind host (unset = the gRPC host)
+                hh = rng.choice(HHOSTS) if not (thorough or critical) else None
                 for v in ([via] if via else vias):
-                    out.append("cfgrow env=%s envclass=%s fsync=%s snap=%s recovery=%s strategy=%s auth=%d rl=%d "
-                               "obs=%s fresh=%d tls=%d host=%s loop=%d via=%s" % (
-                                   hexs(env), cls, fs, sn, rc, st, au, rl, ob, fr, tl, hexs(host), loop, v))
+                    for (hhost, hloop) in ([hh] if hh else HHOSTS[1:]):
+                        out.append("cfgrow env=%s envclass=%s fsync=%s snap=%s recovery=%s strategy=%s auth=%d rl=%d "
+                                   "obs=%s fresh=%d tls=%d host=%s loop=%d hhost=%s hloop=%d via=%s" % (
+                                       hexs(env), cls, fs, sn, rc, st, au, rl, ob, fr, tl, hexs(host), loop,
+                                       "-" if hhost is None else hexs(hhost), loop if hhost is None else hloop, v))
     return out
 
 
